@@ -223,6 +223,7 @@ type KnownFinding struct {
 	Attrs     map[string]string `json:"attrs,omitempty"` // every listed attr must match exactly ("*" suffix = prefix match)
 	What      string            `json:"what"`
 	FixCommit string            `json:"fix_commit,omitempty"`
+	Replay    string            `json:"replay,omitempty"` // pinned reproduction, relative to /verif
 }
 
 type knownFile struct {
@@ -246,13 +247,27 @@ func loadKnown() []KnownFinding {
 func matchKnown(kf []KnownFinding, v *Violation) *KnownFinding {
 	for i := range kf {
 		k := &kf[i]
-		if k.Status != "open" || k.Property != v.Prop || k.Kind != v.Kind {
+		if k.Status != "open" || k.Property != v.Prop {
+			continue
+		}
+		kindOK := false
+		for _, alt := range strings.Split(k.Kind, "|") {
+			if alt == v.Kind {
+				kindOK = true
+			}
+		}
+		if !kindOK {
 			continue
 		}
 		ok := true
 		for a, want := range k.Attrs {
+			optional := strings.HasPrefix(a, "?") // "?name": must match only when the violation has it
+			a = strings.TrimPrefix(a, "?")
 			got, has := v.Attrs[a]
 			if !has {
+				if optional {
+					continue
+				}
 				ok = false
 				break
 			}
@@ -368,7 +383,7 @@ type ReplayFile struct {
 func writeReplay(rf *ReplayFile) string {
 	dir := filepath.Join(verifDir(), "replays")
 	os.MkdirAll(dir, 0755)
-	name := fmt.Sprintf("%s-%d-%d.json", rf.Property, rf.FoundSeed, rf.RunIndex)
+	name := fmt.Sprintf("%s-%d-%d-%s.json", rf.Property, rf.FoundSeed, rf.RunIndex, hashStrings([]string{rf.Signature})[:6])
 	p := filepath.Join(dir, name)
 	b, _ := json.MarshalIndent(rf, "", " ")
 	os.WriteFile(p, b, 0644)
